@@ -118,7 +118,7 @@ fn one_stream(i: u64, seed: u64, tier: Tier) -> Out {
     let mut out = Out { execs: 0, groups: 0, fail: None, dig: mix(&[i, m as u64, nd as u64, digest_u64s(&ids[..nd.min(16)])]), n: nd, case };
     let base = by_slice(kind, m, &stream);
     out.execs += 1;
-    let mut check = |name: &str, bits: Vec<u64>, out: &mut Out| {
+    let check = |name: &str, bits: Vec<u64>, out: &mut Out| {
         out.execs += 1;
         out.groups += 1;
         if out.fail.is_none() && bits != base {
